@@ -418,6 +418,10 @@ def check_ops(pid, tier, seed, scratch, replay):
     import concurrent.futures as cf
     with cf.ThreadPoolExecutor(max_workers=vlib.NCPU) as ex:
         mc_f = ex.submit(run_mc, 0)
+        impl_cfg = {"C09": "MC_OpsImpl_add.cfg", "C10": "MC_OpsImpl_fragment.cfg", "C11": "MC_OpsImpl_unfragment.cfg",
+                    "C13": "MC_OpsImpl_optimize.cfg", "C14": "MC_OpsImpl_force.cfg"}.get(pid)
+        # implementation layer: the transcribed algorithm terminates and refines the normative relation
+        impl_f = ex.submit(lambda: require_ok(tlc(scratch, "MC_OpsImpl", impl_cfg, workers=3, timeout=1500, heap="4g"), impl_cfg)) if impl_cfg else None
         gen_f = [ex.submit(run_gen, j) for j in jobs]
         rjobs = []
         for rj in rands:
@@ -431,6 +435,8 @@ def check_ops(pid, tier, seed, scratch, replay):
         vals = validate(ex, scratch, traces, "TraceOps", "TraceOps.cfg")
         mc = mc_f.result()
     rep.add_mc(mc_cfg, mc)
+    if impl_f is not None:
+        rep.add_mc(impl_cfg + " (implementation layer: termination, refinement of the normative relation, loop invariants)", impl_f.result())
     collect(rep, vals, pid, nontrivial=lambda ev: ops_nontrivial(pid, ev),
             key=lambda ev: [ev["op"], ev["a"], ev["b"], ev["pre"], ev["pre2"]])
     rep.exhaustive = False
@@ -582,6 +588,10 @@ def codec_check(pid, tier, seed, scratch, spec):
         return dump_docs(seed, scratch, spec)
     rep = Report(pid, tier, seed)
     rep.rule = spec["rule"]
+    if thorough and any(e.get("GEN_WIDE") for e, _, _, _ in spec["gens"]):
+        rep.rule += (" Thorough tier: the same families are additionally generated with GEN_WIDE=1, i.e. ranging over the whole space "
+                     "of rendering choices of the codec module (every line terminator x byte-order mark x spacing / radix / indentation "
+                     "variant for every truth) and over the wider truth sets the MC module defines for it.")
     rep.assumptions = spec["assumptions"]
     drive = vlib.build_harness(scratch)
     jobs = []
@@ -743,7 +753,8 @@ def check_vtt(pid, tier, seed, scratch, replay):
     return codec_check(pid, tier, seed, scratch, dict(
         name="vtt", gen_module="GenVtt", gen_cfg="GenVtt.cfg", drive_cmd="vtt", trace_module="TraceVtt", trace_cfg="TraceVtt.cfg",
         mc=[("VttMC", "MC_Vtt_H.cfg", None), ("VttMC", "MC_Vtt_C.cfg", None), ("VttMC", "MC_Vtt_P.cfg", None)],
-        gens=[(dict(GEN_FAM="H"), 2, 2, None), (dict(GEN_FAM="C"), 10, 10, None), (dict(GEN_FAM="P"), 1, 1, None)],
+        gens=[(dict(GEN_FAM="H"), 2, 2, None), (dict(GEN_FAM="C"), 10, 10, None), (dict(GEN_FAM="P"), 1, 1, None),
+              (dict(GEN_FAM="H", GEN_WIDE=1), 0, 4, "thorough"), (dict(GEN_FAM="C", GEN_WIDE=1), 0, 16, "thorough"), (dict(GEN_FAM="P", GEN_WIDE=1), 0, 4, "thorough")],
         nrand=(0, 0), per_jvm=2500,
         rule=("TLC enumerates ground truths of three families - H: timestamp map x STYLE block (0-2 lines) x regions (0-2, with "
               "lines/width/scroll) x region reference; C: one cue with id present/absent x 0-2 comment lines x 4 cue-setting subsets "
@@ -766,7 +777,8 @@ def check_ssa(pid, tier, seed, scratch, replay):
     return codec_check(pid, tier, seed, scratch, dict(
         name="ssa", gen_module="GenSsa", gen_cfg="GenSsa.cfg", drive_cmd="ssa", trace_module="TraceSsa", trace_cfg="TraceSsa.cfg",
         mc=[("SsaMC", "MC_Ssa_S.cfg", None), ("SsaMC", "MC_Ssa_E.cfg", None), ("SsaMC", "MC_Ssa_F.cfg", None)],
-        gens=[(dict(GEN_FAM="S"), 2, 2, None), (dict(GEN_FAM="E"), 6, 6, None), (dict(GEN_FAM="F"), 3, 3, None)],
+        gens=[(dict(GEN_FAM="S"), 2, 2, None), (dict(GEN_FAM="E"), 6, 6, None), (dict(GEN_FAM="F"), 3, 3, None),
+              (dict(GEN_FAM="S", GEN_WIDE=1), 0, 4, "thorough"), (dict(GEN_FAM="E", GEN_WIDE=1), 0, 16, "thorough"), (dict(GEN_FAM="F", GEN_WIDE=1), 0, 4, "thorough")],
         nrand=(0, 0), per_jvm=2000,
         rule=("TLC enumerates ground truths of three families - S: one style over Name + 4 typed columns (string, float, colour, "
               "boolean) x all 120 permutations of the Format line x v4/v4+ x decimal/&H colours; E: one Dialogue over Layer|Marked, "
@@ -790,7 +802,8 @@ def check_ttml(pid, tier, seed, scratch, replay):
     return codec_check(pid, tier, seed, scratch, dict(
         name="ttml", gen_module="GenTtml", gen_cfg="GenTtml.cfg", drive_cmd="ttml", trace_module="TraceTtml", trace_cfg="TraceTtml.cfg",
         mc=[("TtmlMC", "MC_Ttml_T.cfg", None), ("TtmlMC", "MC_Ttml_B.cfg", None), ("TtmlMC", "MC_Ttml_S.cfg", None)],
-        gens=[(dict(GEN_FAM="T"), 5, 5, None), (dict(GEN_FAM="B"), 1, 1, None), (dict(GEN_FAM="S"), 6, 6, None)],
+        gens=[(dict(GEN_FAM="T"), 5, 5, None), (dict(GEN_FAM="B"), 1, 1, None), (dict(GEN_FAM="S"), 6, 6, None),
+              (dict(GEN_FAM="T", GEN_WIDE=1), 0, 8, "thorough"), (dict(GEN_FAM="B", GEN_WIDE=1), 0, 2, "thorough"), (dict(GEN_FAM="S", GEN_WIDE=1), 0, 8, "thorough")],
         nrand=(0, 0), per_jvm=1500,
         rule=("TLC enumerates ground truths of three families - T: one paragraph x 6 instant pairs x frameRate {0,24,25,30} x tickRate "
               "{0,1000,90000,10^7} with begin and end each written in every equivalent time-expression syntax (clock with 0-3 fraction "
@@ -814,7 +827,8 @@ def check_stl(pid, tier, seed, scratch, replay):
     return codec_check(pid, tier, seed, scratch, dict(
         name="stl", gen_module="GenStl", gen_cfg="GenStl.cfg", drive_cmd="stl", trace_module="TraceStl", trace_cfg="TraceStl.cfg",
         mc=[("StlMC", "MC_Stl_K.cfg", None), ("StlMC", "MC_Stl_T.cfg", None), ("StlMC", "MC_Stl_R.cfg", None), ("StlMC", "MC_Stl_X.cfg", None), ("StlMC", "MC_Stl_M.cfg", None)],
-        gens=[(dict(GEN_FAM="K"), 2, 2, None), (dict(GEN_FAM="T"), 2, 2, None), (dict(GEN_FAM="R"), 2, 2, None), (dict(GEN_FAM="X"), 1, 1, None), (dict(GEN_FAM="M"), 1, 1, None)],
+        gens=[(dict(GEN_FAM="K"), 2, 2, None), (dict(GEN_FAM="T"), 2, 2, None), (dict(GEN_FAM="R"), 2, 2, None), (dict(GEN_FAM="X"), 1, 1, None), (dict(GEN_FAM="M"), 1, 1, None),
+              (dict(GEN_FAM="T", GEN_WIDE=1), 0, 6, "thorough"), (dict(GEN_FAM="R", GEN_WIDE=1), 0, 6, "thorough"), (dict(GEN_FAM="X", GEN_WIDE=1), 0, 2, "thorough")],
         nrand=(0, 0), per_jvm=1200,
         rule=("TLC enumerates (truth, file) pairs of five families - K: the complete Latin code table, one file per printable "
               "code and per diacritic x letter pair (13 x 52, composable or not; table generated from the standard by "
@@ -1012,7 +1026,8 @@ def check_teletext(pid, tier, seed, scratch, replay):
         name="teletext", gen_module="GenTeletext", gen_cfg="GenTeletext.cfg", drive_cmd="teletext", trace_module="TraceTeletext", trace_cfg="TraceTeletext.cfg",
         mc=[("TeletextMC", "MC_Teletext_%s.cfg" % f, None) for f in "SPEAHCI"],
         gens=[(dict(GEN_FAM="S"), 1, 1, None), (dict(GEN_FAM="P"), 2, 2, None), (dict(GEN_FAM="E"), 3, 3, None), (dict(GEN_FAM="A"), 1, 1, None),
-              (dict(GEN_FAM="H"), 1, 1, None), (dict(GEN_FAM="C"), 1, 1, None), (dict(GEN_FAM="I"), 1, 1, None)],
+              (dict(GEN_FAM="H"), 1, 1, None), (dict(GEN_FAM="C"), 1, 1, None), (dict(GEN_FAM="I"), 1, 1, None),
+              (dict(GEN_FAM="I", GEN_WIDE=1), 0, 6, "thorough")],
         nrand=(0, 0), per_jvm=400,
         rule=("TLC enumerates transport-stream descriptions of seven families - S serial mode: every order of 3 target-page instances "
               "(one of them an erase instance), a distractor page in the same magazine and the same page number in another magazine, "
@@ -1035,6 +1050,10 @@ def check_teletext(pid, tier, seed, scratch, replay):
     ))
 
 
+NEGATIVE_MODELS = [("ScannerMC", "MC_Scanner_pinCR.cfg"), ("ScannerMC", "MC_Scanner_pinERR.cfg"), ("ScannerMC", "MC_ScannerBlocks_pinBLK.cfg"),
+                   ("Writers", "MC_Writers_pin.cfg"), ("Conc", "MC_Conc_leaky.cfg"), ("MC_OpsImpl", "MC_OpsImpl_optimize_pinned.cfg")]
+
+
 def selftest(pid, tier, seed, scratch, replay):
     """Demonstrates the binding of every trace specification: each property's quick check is run, and after each
     trace validation one accepted trace file is re-validated with a single observed field corrupted; the trace
@@ -1048,6 +1067,12 @@ def selftest(pid, tier, seed, scratch, replay):
         res = SELFTEST["results"]
     finally:
         SELFTEST = None
+    # the properties of the bounded models are not vacuous: the model of the pinned (defective) behaviour violates them
+    for module, cfg in NEGATIVE_MODELS:
+        r = tlc(scratch, module, cfg, workers=4, timeout=1500, heap="4g")
+        hit = (not r.ok) and ("is violated" in r.out or "was violated" in r.out or "were violated" in r.out)
+        res.append({"module": "model:" + cfg, "line": 0, "corruption": "model of the pinned behaviour", "detected": hit, "tlc_ok": r.ok})
+        log("selftest %s/%s (pinned behaviour): %s" % (module, cfg, "property violated, as it must be" if hit else "NOT violated"))
     mods = sorted(set(r["module"] for r in res))
     bad = [r for r in res if not r["detected"]]
     for m in mods:
